@@ -95,3 +95,28 @@ Proof.
   do 4 (split; [vm_compute; reflexivity|]).
   apply maps_trace_verdict. vm_compute. reflexivity.
 Qed.
+
+(** relabelling and symmetry of the helpers (proof/C07_Sym.v): C . O renumbered by +10 is still a monomorphic, not an induced,
+    subgraph of C-O; graph_isomorphism / find_graph_isomorphism give the same verdict for (C-O, O-C) and (O-C, C-O) *)
+From SK Require Import proof.C07_Sym.
+Definition rPlus (x : N) : N := (x + 10)%N.
+Lemma rPlus_inj l : inj_on rPlus l. Proof. intros a b _ _ E. unfold rPlus in E. lia. Qed.
+Example ex_entry_relabel :
+  sub_entry has_mono FnSM (oDef true 1) (grelabel rPlus gC_O) gCO = RB true /\
+  sub_entry has_mono FnSM (oDef true 0) gC_O (grelabel rPlus gCO) = RB false.
+Proof.
+  destruct (entry_relabel has_mono has_mono_contract FnSM (oDef true 1) rPlus gC_O gCO wf_gC_O wf_gCO) as (A & _); [split; [right; discriminate | discriminate]|].
+  destruct (entry_relabel has_mono has_mono_contract FnSM (oDef true 0) rPlus gC_O gCO wf_gC_O wf_gCO) as (_ & B); [split; [right; discriminate | discriminate]|].
+  rewrite (A (rPlus_inj _)), (B (rPlus_inj _)). split; vm_compute; reflexivity.
+Qed.
+Example ex_helpers_symmetric :
+  giso has_mono 9 3 5 gCO gOC = true /\ giso has_mono 9 3 5 gOC gCO = true /\
+  fgi has_mono true true 9 3 5 gCOm gCO = fgi has_mono true true 9 3 5 gCO gCOm /\
+  giso has_mono 9 3 5 (grelabel rPlus gCO) gCOm = false.
+Proof.
+  destruct (helpers_symmetric has_mono has_mono_contract gCO gOC wf_gCO wf_gOC) as (A & _).
+  destruct (helpers_symmetric has_mono has_mono_contract gCOm gCO wf_gCOm wf_gCO) as (_ & _ & C).
+  destruct (helpers_relabel has_mono has_mono_contract gCO gCOm rPlus wf_gCO wf_gCOm) as (D & _).
+  split; [vm_compute; reflexivity|]. split; [rewrite <- A; vm_compute; reflexivity|]. split; [apply C|].
+  destruct (D (rPlus_inj _)) as (D1 & _). rewrite D1. vm_compute. reflexivity.
+Qed.
